@@ -263,6 +263,11 @@ func (c *conn) Set(ctx context.Context, r *gpb.SetRequest) (*gpb.SetResponse, er
 		d.mu.Unlock()
 		err = respond(c.target, n)
 		d.mu.Lock()
+		// the connection may have gone while this invocation was pre-empted: the request is lost
+		if _, live := d.Conns[c.id]; err == nil && !live {
+			d.SkipLog = true
+			err = GrpcErr(codes.Unavailable)
+		}
 	}
 	req.Accepted = err == nil
 	if !d.SkipLog {
